@@ -1226,6 +1226,13 @@ pub fn clock_grid(b: &Base, thorough: bool) -> Vec<Scenario> {
         nows.push(win.0.wrapping_add(0x8000_0000));
         nows.push(win.1.wrapping_add(0x8000_0000));
         nows.push(win.1.wrapping_add(0x7fff_ffff));
+        // instants at which the remaining signature life is just below / at / above the record TTL
+        // (the TTL cap bites or not), counted back from the expiration in serial arithmetic: for a
+        // window that straddles the wrap these lie BEFORE the wrap while the expiration lies after
+        // it, so `expiration - now` underflows as plain integers (seed C06-7)
+        for d in [1, TTL / 2, TTL - 1, TTL, TTL + 1] {
+            nows.push(win.1.wrapping_sub(d));
+        }
         nows.sort();
         nows.dedup();
         for now in nows {
